@@ -21,6 +21,13 @@ def units(tier):
     us = []
     for q in ("_read_bytes", "_parse_rtcm3", "parse", "_do_error", "read"):
         us += func_units(f"{R}.{q}", tier)
+    # "returns exactly the undamaged frames": an undamaged frame's payload is refused by the constructor only when it lacks the
+    # identity header (fewer than 2 bytes / 3 for 4076) or does not decode - never for being short but complete
+    Mq = "pyrtcm.rtcmmessage.RTCMMessage"
+    us += func_units(Mq + ".__init__", tier)
+    us += func_units(Mq + ".identity", tier)
+    us += func_units(Mq + "._get_dict", tier)
+    us += func_units(Mq + "._do_attributes", tier, only=lambda inst: inst["identity"].startswith("unknown"))
     us.append(lemma_unit("crc.step_lemmas", crc_lemmas.step_lemmas))
     us.append(lemma_unit("crc.induction_lemmas", crc_lemmas.induction_lemmas))
     us.append(ground_unit("crc.ground_lemmas", crc_lemmas.ground_lemmas))
